@@ -8,6 +8,7 @@ import Mathlib.Tactic.Ring
 import Mathlib.Tactic.Linarith
 import Mathlib.Tactic.Positivity
 import Mathlib.Tactic.FieldSimp
+import Mathlib.Tactic.LinearCombination
 
 namespace PorepyVerif.C30
 
@@ -1057,5 +1058,975 @@ theorem segPoly_none (tolP tolS : Rat) (s e : Vec) (poly : List Vec)
   · exact Or.inl rfl
   · exact Or.inl rfl
   · exact Or.inr rfl
+
+/-! ### integer inputs: the tolerance devices cannot fire on non-zero quantities -/
+
+def IsInt (x : Rat) : Prop := ∃ z : Int, x = (z : Rat)
+
+theorem IsInt.zero : IsInt 0 := ⟨0, by simp⟩
+theorem IsInt.one : IsInt 1 := ⟨1, by simp⟩
+theorem IsInt.add {x y : Rat} (hx : IsInt x) (hy : IsInt y) : IsInt (x + y) := by
+  obtain ⟨a, rfl⟩ := hx; obtain ⟨b, rfl⟩ := hy; exact ⟨a + b, by push_cast; ring⟩
+theorem IsInt.sub {x y : Rat} (hx : IsInt x) (hy : IsInt y) : IsInt (x - y) := by
+  obtain ⟨a, rfl⟩ := hx; obtain ⟨b, rfl⟩ := hy; exact ⟨a - b, by push_cast; ring⟩
+theorem IsInt.mul {x y : Rat} (hx : IsInt x) (hy : IsInt y) : IsInt (x * y) := by
+  obtain ⟨a, rfl⟩ := hx; obtain ⟨b, rfl⟩ := hy; exact ⟨a * b, by push_cast; ring⟩
+theorem IsInt.neg {x : Rat} (hx : IsInt x) : IsInt (-x) := by
+  obtain ⟨a, rfl⟩ := hx; exact ⟨-a, by push_cast; ring⟩
+
+/-- an integer below 1 is at most 0 -/
+theorem IsInt.le_zero_of_lt_one {x : Rat} (hx : IsInt x) (h : x < 1) : x ≤ 0 := by
+  obtain ⟨z, rfl⟩ := hx
+  have : z < 1 := by exact_mod_cast h
+  have : z ≤ 0 := by omega
+  exact_mod_cast this
+
+/-- an integer that is not 0 and not negative is at least 1 -/
+theorem IsInt.one_le {x : Rat} (hx : IsInt x) (h0 : 0 ≤ x) (hne : x ≠ 0) : 1 ≤ x := by
+  obtain ⟨z, rfl⟩ := hx
+  have h1 : (0 : Int) ≤ z := by exact_mod_cast h0
+  have h2 : z ≠ 0 := by intro h; apply hne; rw [h]; simp
+  have : 1 ≤ z := by omega
+  exact_mod_cast this
+
+def IntVec (v : Vec) : Prop := ∀ x ∈ v, IsInt x
+
+theorem IntVec.tail {x : Rat} {xs : Vec} (h : IntVec (x :: xs)) : IntVec xs :=
+  fun y hy => h y (List.mem_cons_of_mem _ hy)
+
+theorem IntVec.head {x : Rat} {xs : Vec} (h : IntVec (x :: xs)) : IsInt x := h x (by simp)
+
+theorem IntVec.vsub {u v : Vec} (hu : IntVec u) (hv : IntVec v) : IntVec (vsub u v) := by
+  induction u generalizing v with
+  | nil => intro x hx; simp at hx
+  | cons a as ih => cases v with
+    | nil => intro x hx; simp at hx
+    | cons b bs =>
+      intro x hx
+      simp only [vsub_cons, List.mem_cons] at hx
+      rcases hx with rfl | hx
+      · exact hu.head.sub hv.head
+      · exact ih hu.tail hv.tail x hx
+
+theorem IntVec.dot {u v : Vec} (hu : IntVec u) (hv : IntVec v) : IsInt (dot u v) := by
+  induction u generalizing v with
+  | nil => simp; exact IsInt.zero
+  | cons a as ih => cases v with
+    | nil => simp; exact IsInt.zero
+    | cons b bs => simp only [dot_cons]; exact (hu.head.mul hv.head).add (ih hu.tail hv.tail)
+
+/-- invariants of the numerators and denominators for integer data -/
+structure IntPar (m : Rat) (q : Par) : Prop where
+  sN : IsInt q.sN
+  tN : IsInt q.tN
+  sD : q.sD ≤ m
+  tD : q.tD ≤ m
+
+theorem stage1_int {tol a b c d e : Rat} (ha : IsInt a) (hb : IsInt b) (hc : IsInt c) (hd : IsInt d) (he : IsInt e)
+    (h1a : 1 ≤ a) (h1c : 1 ≤ c) : IntPar (a * c) (stage1 tol a b c d e) := by
+  have hac : 1 ≤ a * c := by nlinarith
+  have hca : c ≤ a * c := by nlinarith
+  have hD : a * c - b * b ≤ a * c := by nlinarith [mul_self_nonneg b]
+  have iD : IsInt (a * c - b * b) := (ha.mul hc).sub (hb.mul hb)
+  unfold stage1
+  simp only []
+  split_ifs
+  · exact ⟨IsInt.zero, he, hac, hca⟩
+  · exact ⟨IsInt.zero, he, hD, hca⟩
+  · exact ⟨iD, hb.add he, hD, hca⟩
+  · exact ⟨(hb.mul he).sub (hc.mul hd), (ha.mul he).sub (hb.mul hd), hD, hD⟩
+
+theorem stage2_int {m a b d : Rat} {q : Par} (ha : IsInt a) (hb : IsInt b) (hd : IsInt d) (ham : a ≤ m)
+    (hsD : IsInt q.sD) (htD : IsInt q.tD) (h : IntPar m q) : IntPar m (stage2 a b d q) ∧ True := by
+  obtain ⟨sN, sD, tN, tD⟩ := q
+  obtain ⟨h1, h2, h3, h4⟩ := h
+  simp only at h1 h2 h3 h4 hsD htD
+  simp only [stage2, stage2a, stage2b]
+  refine ⟨?_, trivial⟩
+  split_ifs <;> (try simp only []) <;> constructor <;> (try simp only []) <;>
+    first | assumption | exact IsInt.zero | exact hd.neg | exact hd.neg.add hb
+
+theorem stage1_den_int {tol a b c d e : Rat} (ha : IsInt a) (hb : IsInt b) (hc : IsInt c) :
+    IsInt (stage1 tol a b c d e).sD ∧ IsInt (stage1 tol a b c d e).tD := by
+  have iD : IsInt (a * c - b * b) := (ha.mul hc).sub (hb.mul hb)
+  unfold stage1
+  simp only []
+  split_ifs
+  · exact ⟨IsInt.one, hc⟩
+  · exact ⟨iD, hc⟩
+  · exact ⟨iD, hc⟩
+  · exact ⟨iD, iD⟩
+
+/-- for integer dot products with `tol·|u|²·|v|² ≤ 1` the kernel is in its exact regime -/
+theorem exactRegime_of_int {tol a b c d e : Rat} (htol : 0 < tol)
+    (ha : IsInt a) (hb : IsInt b) (hc : IsInt c) (hd : IsInt d) (he : IsInt e)
+    (ha0 : 0 ≤ a) (hc0 : 0 ≤ c) (hbound : tol * a * c ≤ 1) : exactRegime tol a b c d e = true := by
+  unfold exactRegime
+  simp only [Bool.or_eq_true, Bool.and_eq_true, decide_eq_true_eq, Bool.not_eq_true', decide_eq_false_iff_not]
+  by_cases hz : a = 0
+  · exact Or.inl (Or.inl hz)
+  by_cases hzc : c = 0
+  · exact Or.inl (Or.inr hzc)
+  right
+  have h1a := ha.one_le ha0 hz
+  have h1c := hc.one_le hc0 hzc
+  have iD : IsInt (a * c - b * b) := (ha.mul hc).sub (hb.mul hb)
+  have I1 := stage1_int (tol := tol) ha hb hc hd he h1a h1c
+  obtain ⟨d1, d2⟩ := stage1_den_int (tol := tol) (d := d) (e := e) ha hb hc
+  have ham : a ≤ a * c := by nlinarith
+  obtain ⟨I2, _⟩ := stage2_int ha hb hd ham d1 d2 I1
+  have key : ∀ n dn : Rat, IsInt n → dn ≤ a * c → (¬ n < tol * dn ∨ n ≤ 0) := by
+    intro n dn hn hdn
+    by_cases h : n < tol * dn
+    · right
+      have : tol * dn ≤ tol * (a * c) := mul_le_mul_of_nonneg_left hdn htol.le
+      exact hn.le_zero_of_lt_one (by nlinarith)
+    · exact Or.inl h
+  refine ⟨⟨?_, key _ _ I2.sN I2.sD⟩, key _ _ I2.tN I2.tD⟩
+  by_cases h : a * c - b * b < tol * a * c
+  · right; exact iD.le_zero_of_lt_one (by linarith)
+  · exact Or.inl h
+
+/-! ### three-dimensional helpers -/
+
+theorem len3 (v : Vec) (h : v.length = 3) : ∃ x y z, v = [x, y, z] := by
+  match v, h with
+  | [x, y, z], _ => exact ⟨x, y, z, rfl⟩
+
+/-- `side3` is affine along segments -/
+theorem side3_along (n a b q x : Vec) (t : Rat) (hn : n.length = 3) (ha : a.length = 3) (hb : b.length = 3)
+    (hq : q.length = 3) (hx : x.length = 3) :
+    side3 n a b (along q x t) = side3 n a b q + t * (side3 n a b x - side3 n a b q) := by
+  obtain ⟨n1, n2, n3, rfl⟩ := len3 n hn
+  obtain ⟨a1, a2, a3, rfl⟩ := len3 a ha
+  obtain ⟨b1, b2, b3, rfl⟩ := len3 b hb
+  obtain ⟨q1, q2, q3, rfl⟩ := len3 q hq
+  obtain ⟨x1, x2, x3, rfl⟩ := len3 x hx
+  simp [side3, cross3, along]
+  ring
+
+/-- `side3` only depends on the differences: `((b-a)×(x-a))·n = ((a-x)×(b-x))·n` -/
+theorem side3_rot (n a b x : Vec) (hn : n.length = 3) (ha : a.length = 3) (hb : b.length = 3) (hx : x.length = 3) :
+    side3 n a b x = side3 n x a b := by
+  obtain ⟨n1, n2, n3, rfl⟩ := len3 n hn
+  obtain ⟨a1, a2, a3, rfl⟩ := len3 a ha
+  obtain ⟨b1, b2, b3, rfl⟩ := len3 b hb
+  obtain ⟨x1, x2, x3, rfl⟩ := len3 x hx
+  simp [side3, cross3]
+  ring
+
+theorem side3_pred (n g a b : Vec) (t : Rat) (hn : n.length = 3) (hg : g.length = 3) (ha : a.length = 3) (hb : b.length = 3) :
+    side3 n g a (along a b t) = t * side3 n g a b := by
+  obtain ⟨n1, n2, n3, rfl⟩ := len3 n hn
+  obtain ⟨a1, a2, a3, rfl⟩ := len3 a ha
+  obtain ⟨b1, b2, b3, rfl⟩ := len3 b hb
+  obtain ⟨g1, g2, g3, rfl⟩ := len3 g hg
+  simp [side3, cross3, along]
+  ring
+
+theorem side3_succ (n a b g : Vec) (t : Rat) (hn : n.length = 3) (hg : g.length = 3) (ha : a.length = 3) (hb : b.length = 3) :
+    side3 n b g (along a b t) = (1 - t) * side3 n a b g := by
+  obtain ⟨n1, n2, n3, rfl⟩ := len3 n hn
+  obtain ⟨a1, a2, a3, rfl⟩ := len3 a ha
+  obtain ⟨b1, b2, b3, rfl⟩ := len3 b hb
+  obtain ⟨g1, g2, g3, rfl⟩ := len3 g hg
+  simp [side3, cross3, along]
+  ring
+
+theorem side3_self (n a b : Vec) (hn : n.length = 3) (ha : a.length = 3) (hb : b.length = 3) :
+    side3 n a b b = 0 ∧ side3 n a b a = 0 ∧ side3 n a a b = 0 := by
+  obtain ⟨n1, n2, n3, rfl⟩ := len3 n hn
+  obtain ⟨a1, a2, a3, rfl⟩ := len3 a ha
+  obtain ⟨b1, b2, b3, rfl⟩ := len3 b hb
+  refine ⟨?_, ?_, ?_⟩ <;> (simp [side3, cross3]; try ring)
+
+/-- a point of the plane on the carrier line of `a b` is `a + t (b - a)` -/
+theorem collinear_param (n c a b y : Vec) (hn : n.length = 3) (hc : c.length = 3) (ha : a.length = 3)
+    (hb : b.length = 3) (hy : y.length = 3) (hnn : nsq n ≠ 0) (hab : nsq (vsub b a) ≠ 0)
+    (pa : dot (vsub a c) n = 0) (pb : dot (vsub b c) n = 0) (py : dot (vsub y c) n = 0)
+    (h0 : side3 n a b y = 0) :
+    y = along a b (dot (vsub b a) (vsub y a) / nsq (vsub b a)) := by
+  obtain ⟨n1, n2, n3, rfl⟩ := len3 n hn
+  obtain ⟨c1, c2, c3, rfl⟩ := len3 c hc
+  obtain ⟨a1, a2, a3, rfl⟩ := len3 a ha
+  obtain ⟨b1, b2, b3, rfl⟩ := len3 b hb
+  obtain ⟨y1, y2, y3, rfl⟩ := len3 y hy
+  simp [side3, cross3, nsq] at pa pb py h0 hnn hab ⊢
+  -- e = b - a, w = y - a, both orthogonal to n
+  have en : (b1 - a1) * n1 + ((b2 - a2) * n2 + (b3 - a3) * n3) = 0 := by linarith
+  have wn : (y1 - a1) * n1 + ((y2 - a2) * n2 + (y3 - a3) * n3) = 0 := by linarith
+  -- the cross product e × w vanishes
+  have hN : n1 * n1 + (n2 * n2 + n3 * n3) ≠ 0 := hnn
+  have C1 : (b2 - a2) * (y3 - a3) - (b3 - a3) * (y2 - a2) = 0 := by
+    have : (n1 * n1 + (n2 * n2 + n3 * n3)) * ((b2 - a2) * (y3 - a3) - (b3 - a3) * (y2 - a2)) = 0 := by
+      linear_combination n1 * h0 + (n2 * (y3 - a3) - n3 * (y2 - a2)) * en - (n2 * (b3 - a3) - n3 * (b2 - a2)) * wn
+    rcases mul_eq_zero.mp this with h | h
+    · exact absurd h hN
+    · exact h
+  have C2 : (b3 - a3) * (y1 - a1) - (b1 - a1) * (y3 - a3) = 0 := by
+    have : (n1 * n1 + (n2 * n2 + n3 * n3)) * ((b3 - a3) * (y1 - a1) - (b1 - a1) * (y3 - a3)) = 0 := by
+      linear_combination n2 * h0 + (n3 * (y1 - a1) - n1 * (y3 - a3)) * en - (n3 * (b1 - a1) - n1 * (b3 - a3)) * wn
+    rcases mul_eq_zero.mp this with h | h
+    · exact absurd h hN
+    · exact h
+  have C3 : (b1 - a1) * (y2 - a2) - (b2 - a2) * (y1 - a1) = 0 := by
+    have : (n1 * n1 + (n2 * n2 + n3 * n3)) * ((b1 - a1) * (y2 - a2) - (b2 - a2) * (y1 - a1)) = 0 := by
+      linear_combination n3 * h0 + (n1 * (y2 - a2) - n2 * (y1 - a1)) * en - (n1 * (b2 - a2) - n2 * (b1 - a1)) * wn
+    rcases mul_eq_zero.mp this with h | h
+    · exact absurd h hN
+    · exact h
+  have hE : (b1 - a1) * (b1 - a1) + ((b2 - a2) * (b2 - a2) + (b3 - a3) * (b3 - a3)) ≠ 0 := hab
+  have k1 : y1 - a1 = ((b1 - a1) * (y1 - a1) + ((b2 - a2) * (y2 - a2) + (b3 - a3) * (y3 - a3))) /
+      ((b1 - a1) * (b1 - a1) + ((b2 - a2) * (b2 - a2) + (b3 - a3) * (b3 - a3))) * (b1 - a1) := by
+    rw [div_mul_eq_mul_div, eq_div_iff hE]
+    linear_combination (b3 - a3) * C2 - (b2 - a2) * C3
+  have k2 : y2 - a2 = ((b1 - a1) * (y1 - a1) + ((b2 - a2) * (y2 - a2) + (b3 - a3) * (y3 - a3))) /
+      ((b1 - a1) * (b1 - a1) + ((b2 - a2) * (b2 - a2) + (b3 - a3) * (b3 - a3))) * (b2 - a2) := by
+    rw [div_mul_eq_mul_div, eq_div_iff hE]
+    linear_combination (b1 - a1) * C3 - (b3 - a3) * C1
+  have k3 : y3 - a3 = ((b1 - a1) * (y1 - a1) + ((b2 - a2) * (y2 - a2) + (b3 - a3) * (y3 - a3))) /
+      ((b1 - a1) * (b1 - a1) + ((b2 - a2) * (b2 - a2) + (b3 - a3) * (b3 - a3))) * (b3 - a3) := by
+    rw [div_mul_eq_mul_div, eq_div_iff hE]
+    linear_combination (b2 - a2) * C1 - (b1 - a1) * C2
+  simp only [along, vsub_cons, vsub_nil_left, smul_cons, smul_nil, vadd_cons, vadd_nil_left]
+  rw [← k1, ← k2, ← k3]
+  simp
+
+/-! ### entering a convex region along a segment -/
+
+/-- affine constraints `c + λ d ≥ 0` that all hold at `λ = 1`: there is a first parameter `λ* ∈ [0,1]` from
+    which on all hold, and either `λ* = 0` or one constraint is tight at `λ*` -/
+theorem first_feasible (fs : List (Rat × Rat)) (h1 : ∀ f ∈ fs, 0 ≤ f.1 + f.2) :
+    ∃ l : Rat, 0 ≤ l ∧ l ≤ 1 ∧ (∀ f ∈ fs, 0 ≤ f.1 + l * f.2) ∧ (l = 0 ∨ ∃ f ∈ fs, f.1 + l * f.2 = 0) := by
+  induction fs with
+  | nil => exact ⟨0, le_refl _, by norm_num, fun f hf => by simp at hf, Or.inl rfl⟩
+  | cons f fs ih =>
+    obtain ⟨l0, h0, h1', hall, htight⟩ := ih (fun g hg => h1 g (List.mem_cons_of_mem _ hg))
+    by_cases hf : 0 ≤ f.1 + l0 * f.2
+    · refine ⟨l0, h0, h1', ?_, ?_⟩
+      · intro g hg
+        rcases List.mem_cons.mp hg with rfl | hg
+        · exact hf
+        · exact hall g hg
+      · rcases htight with h | ⟨g, hg, hg0⟩
+        · exact Or.inl h
+        · exact Or.inr ⟨g, List.mem_cons_of_mem _ hg, hg0⟩
+    · have hneg : f.1 + l0 * f.2 < 0 := not_le.mp hf
+      have hf1 : 0 ≤ f.1 + f.2 := h1 f (by simp)
+      have hl0 : l0 < 1 := by
+        by_contra h
+        have : l0 = 1 := le_antisymm h1' (not_lt.mp h)
+        rw [this] at hneg; linarith
+      have hd : 0 < f.2 := by nlinarith
+      have hdne : f.2 ≠ 0 := ne_of_gt hd
+      have hroot : f.1 + (-f.1 / f.2) * f.2 = 0 := by rw [div_mul_cancel₀ _ hdne]; ring
+      have hgt : l0 < -f.1 / f.2 := by rw [lt_div_iff₀ hd]; linarith
+      have hle : -f.1 / f.2 ≤ 1 := by rw [div_le_one hd]; linarith
+      refine ⟨-f.1 / f.2, by linarith, hle, ?_, Or.inr ⟨f, by simp, hroot⟩⟩
+      intro g hg
+      rcases List.mem_cons.mp hg with rfl | hg
+      · rw [hroot]
+      · have ha := hall g hg
+        have hb := h1 g (List.mem_cons_of_mem _ hg)
+        -- g(l) (1 - l0) = (1 - l) g(l0) + (l - l0) g(1)
+        have key : (g.1 + (-f.1 / f.2) * g.2) * (1 - l0)
+            = (1 - -f.1 / f.2) * (g.1 + l0 * g.2) + (-f.1 / f.2 - l0) * (g.1 + g.2) := by ring
+        have hpos : 0 ≤ (g.1 + (-f.1 / f.2) * g.2) * (1 - l0) := by
+          rw [key]
+          exact add_nonneg (mul_nonneg (by linarith) ha) (mul_nonneg (by linarith) hb)
+        by_contra hc
+        have : (g.1 + (-f.1 / f.2) * g.2) * (1 - l0) < 0 := mul_neg_of_neg_of_pos (not_le.mp hc) (by linarith)
+        linarith
+
+/-- a point of the plane that is on the carrier line of an edge and in the half-planes of the two
+    neighbouring edges lies on the edge -/
+theorem on_edge (poly : List Vec) (C : ConvexPoly poly) (g : Vec × Vec) (hg : g ∈ edges poly) (y : Vec)
+    (hy : y.length = 3) (py : dot (vsub y (centroid poly)) (normal poly) = 0)
+    (hall : ∀ h ∈ edges poly, 0 ≤ side3 (normal poly) h.1 h.2 y)
+    (h0 : side3 (normal poly) g.1 g.2 y = 0) :
+    ∃ t : Rat, 0 ≤ t ∧ t ≤ 1 ∧ y = along g.1 g.2 t := by
+  obtain ⟨gp, hgp, gn, hgn, e1, e2, tp, tn⟩ := C.corners g hg
+  obtain ⟨la, lb⟩ := C.len3 g hg
+  have lgp := (C.len3 gp hgp).1
+  have lgn := (C.len3 gn hgn).2
+  -- the edge is not degenerate
+  have hab : nsq (vsub g.2 g.1) ≠ 0 := by
+    intro h
+    have : g.1 = g.2 := (vsub_self_of_nsq_zero g.2 g.1 (by rw [la, lb]) h).symm
+    rw [← this] at tn
+    have := (side3_self (normal poly) g.1 gn.2 C.nlen la lgn).2.2
+    linarith
+  have hy' := collinear_param (normal poly) (centroid poly) g.1 g.2 y C.nlen C.clen la lb hy C.nn hab
+    (C.planar g hg).1 (C.planar g hg).2 py h0
+  refine ⟨_, ?_, ?_, hy'⟩
+  · -- predecessor
+    have h := hall gp hgp
+    rw [e1, hy', side3_pred _ _ _ _ _ C.nlen lgp la lb] at h
+    by_contra hc
+    have := mul_neg_of_neg_of_pos (not_le.mp hc) tp
+    linarith
+  · have h := hall gn hgn
+    rw [e2, hy', side3_succ _ _ _ _ _ C.nlen lgn la lb] at h
+    by_contra hc
+    have : (1 - dot (vsub g.2 g.1) (vsub y g.1) / nsq (vsub g.2 g.1)) * side3 (normal poly) g.1 g.2 gn.2 < 0 :=
+      mul_neg_of_neg_of_pos (by linarith [not_le.mp hc]) tn
+    linarith
+
+theorem length_projPlane (c n x : Vec) (hn : n.length = x.length) : (projPlane c n x).length = x.length := by
+  unfold projPlane; rw [length_vsub _ _ (by simp [hn])]
+
+/-- Pythagoras in the plane through `c` with normal `n`: for `z` in the plane,
+    `|p - z|² = |p - q|² + |q - z|²` with `q` the projection of `p` -/
+theorem pythagoras_plane (c n p z : Vec) (hc : c.length = p.length) (hn : n.length = p.length)
+    (hz : z.length = p.length) (hnn : nsq n ≠ 0) (hplane : dot (vsub z c) n = 0) :
+    nsq (vsub p z) = nsq (vsub p (projPlane c n p)) + nsq (vsub (projPlane c n p) z) := by
+  have hq := projPlane_in_plane c n p hc hn hnn
+  have e1 : vsub p (projPlane c n p) = smul (dot (vsub p c) n / nsq n) n := by
+    unfold projPlane; exact vsub_vsub_cancel _ _ (by simp [hn])
+  have lq := length_projPlane c n p hn
+  have split := nsq_split p (projPlane c n p) z hz lq
+  have cross : dot (vsub p (projPlane c n p)) (vsub (projPlane c n p) z) = 0 := by
+    rw [e1, dot_smul_left, dot_vsub_right _ _ _ (by rw [lq, hz])]
+    have a1 : dot n (projPlane c n p) = dot c n := by
+      have := hq
+      rw [dot_vsub_left _ _ _ (by rw [lq, hc])] at this
+      rw [dot_comm]; linarith
+    have a2 : dot n z = dot c n := by
+      rw [dot_vsub_left _ _ _ (by rw [hz, hc])] at hplane
+      rw [dot_comm]; linarith
+    rw [a1, a2]; ring
+  rw [split, cross]; ring
+
+/-- a segment from a point `q` of the plane that is not strictly inside the region to a point `x` of the
+    region meets the boundary: some point of it lies on an edge -/
+theorem convex_entry (poly : List Vec) (C : ConvexPoly poly) (q x : Vec) (hq : q.length = 3)
+    (pq : dot (vsub q (centroid poly)) (normal poly) = 0) (hx : InRegion poly x)
+    (hout : ∃ g ∈ edges poly, side3 (normal poly) g.1 g.2 q ≤ 0) :
+    ∃ g ∈ edges poly, ∃ t l : Rat, 0 ≤ t ∧ t ≤ 1 ∧ 0 ≤ l ∧ l ≤ 1 ∧ along q x l = along g.1 g.2 t := by
+  obtain ⟨lx, px, sx⟩ := hx
+  obtain ⟨l, l0, l1, hall, htight⟩ := first_feasible
+    ((edges poly).map fun g => (side3 (normal poly) g.1 g.2 q, side3 (normal poly) g.1 g.2 x - side3 (normal poly) g.1 g.2 q))
+    (by
+      intro f hf
+      obtain ⟨g, hg, rfl⟩ := List.mem_map.mp hf
+      simp only []
+      have := sx g hg
+      linarith)
+  have ly : (along q x l).length = 3 := by rw [length_along _ _ _ (by rw [hq, lx]), hq]
+  have py : dot (vsub (along q x l) (centroid poly)) (normal poly) = 0 :=
+    along_in_plane _ _ _ _ l (by rw [hq, lx]) (by rw [C.clen, hq]) pq px
+  have sy : ∀ h ∈ edges poly, side3 (normal poly) h.1 h.2 (along q x l)
+      = side3 (normal poly) h.1 h.2 q + l * (side3 (normal poly) h.1 h.2 x - side3 (normal poly) h.1 h.2 q) :=
+    fun h hh => side3_along _ _ _ _ _ l C.nlen (C.len3 h hh).1 (C.len3 h hh).2 hq lx
+  have hally : ∀ h ∈ edges poly, 0 ≤ side3 (normal poly) h.1 h.2 (along q x l) := by
+    intro h hh
+    rw [sy h hh]
+    exact hall _ (List.mem_map.mpr ⟨h, hh, rfl⟩)
+  have fin : ∀ g ∈ edges poly, side3 (normal poly) g.1 g.2 (along q x l) = 0 →
+      ∃ g ∈ edges poly, ∃ t l : Rat, 0 ≤ t ∧ t ≤ 1 ∧ 0 ≤ l ∧ l ≤ 1 ∧ along q x l = along g.1 g.2 t := by
+    intro g hg h0
+    obtain ⟨t, t0, t1, e⟩ := on_edge poly C g hg _ ly py hally h0
+    exact ⟨g, hg, t, l, t0, t1, l0, l1, e⟩
+  rcases htight with h | ⟨f, hf, hf0⟩
+  · obtain ⟨g, hg, hle⟩ := hout
+    apply fin g hg
+    have h1 := hally g hg
+    rw [sy g hg, h] at h1 ⊢
+    simp at h1 ⊢
+    linarith
+  · obtain ⟨g, hg, rfl⟩ := List.mem_map.mp hf
+    apply fin g hg
+    rw [sy g hg]
+    exact hf0
+
+/-- nearest point on the boundary: if the projection of `p` is not strictly inside the region, every point of
+    the region is at least as far from `p` as some point of some edge -/
+theorem convex_outside_bound (poly : List Vec) (C : ConvexPoly poly) (p : Vec) (hp : p.length = 3)
+    (hout : ∃ g ∈ edges poly, side3 (normal poly) g.1 g.2 (projPlane (centroid poly) (normal poly) p) ≤ 0)
+    (x : Vec) (hx : InRegion poly x) :
+    ∃ g ∈ edges poly, ∃ t : Rat, 0 ≤ t ∧ t ≤ 1 ∧ nsq (vsub p (along g.1 g.2 t)) ≤ nsq (vsub p x) := by
+  have hc : (centroid poly).length = p.length := by rw [C.clen, hp]
+  have hn : (normal poly).length = p.length := by rw [C.nlen, hp]
+  have lq : (projPlane (centroid poly) (normal poly) p).length = 3 := by rw [length_projPlane _ _ _ hn, hp]
+  have pq := projPlane_in_plane (centroid poly) (normal poly) p hc hn C.nn
+  obtain ⟨g, hg, t, l, t0, t1, l0, l1, e⟩ := convex_entry poly C _ x lq pq hx hout
+  obtain ⟨lx, px, _⟩ := hx
+  refine ⟨g, hg, t, t0, t1, ?_⟩
+  rw [← e]
+  have ly : (along (projPlane (centroid poly) (normal poly) p) x l).length = p.length := by
+    rw [length_along _ _ _ (by rw [lq, lx]), lq, hp]
+  have py : dot (vsub (along (projPlane (centroid poly) (normal poly) p) x l) (centroid poly)) (normal poly) = 0 :=
+    along_in_plane _ _ _ _ l (by rw [lq, lx]) (by rw [C.clen, lq]) pq px
+  rw [pythagoras_plane _ _ p _ hc hn ly C.nn py, pythagoras_plane _ _ p x hc hn (by rw [lx, hp]) C.nn px]
+  have hq0 : nsq (vsub (projPlane (centroid poly) (normal poly) p) (projPlane (centroid poly) (normal poly) p)) = 0 :=
+    nsq_vsub_self _
+  rw [nsq_sub_along _ _ _ l rfl (by rw [lq, lx]), hq0, dot_eq_zero_of_nsq_eq_zero _ _ hq0,
+    nsq_vsub_comm x]
+  have hnn := nsq_nonneg (vsub (projPlane (centroid poly) (normal poly) p) x)
+  nlinarith [mul_nonneg (mul_nonneg l0 (sub_nonneg.mpr l1)) hnn, mul_nonneg (sub_nonneg.mpr l1) hnn]
+
+/-! ### the winding test in two dimensions -/
+
+theorem sgn_pos {x : Rat} (h : 0 < x) : sgn x = 1 := by
+  unfold sgn; rw [if_neg (by linarith), if_pos h]
+theorem sgn_neg {x : Rat} (h : x < 0) : sgn x = -1 := by
+  unfold sgn; rw [if_pos h]
+theorem sgn_zero : sgn 0 = 0 := by unfold sgn; simp
+
+/-- `vertex_sgn = 1`: the open right half-plane plus the positive y-axis -/
+theorem vsign2_cases (u : Rat × Rat) :
+    (vsign2 u = 1 ∧ (0 < u.1 ∨ (u.1 = 0 ∧ 0 < u.2))) ∨
+    (vsign2 u = -1 ∧ (u.1 < 0 ∨ (u.1 = 0 ∧ u.2 < 0))) ∨
+    (vsign2 u = 0 ∧ u.1 = 0 ∧ u.2 = 0) := by
+  unfold vsign2 vsign
+  rcases lt_trichotomy u.1 0 with h | h | h
+  · right; left
+    rw [sgn_neg h]; simp; exact Or.inl h
+  · have hs : sgn u.1 = 0 := by rw [h]; exact sgn_zero
+    rw [if_pos hs]
+    rcases lt_trichotomy u.2 0 with h2 | h2 | h2
+    · right; left; exact ⟨sgn_neg h2, Or.inr ⟨h, h2⟩⟩
+    · right; right; exact ⟨by rw [h2]; exact sgn_zero, h, h2⟩
+    · left; exact ⟨sgn_pos h2, Or.inr ⟨h, h2⟩⟩
+  · left
+    rw [sgn_pos h]; simp; exact Or.inl h
+
+theorem cross2_self (u : Rat × Rat) : cross2 u u = 0 := by unfold cross2; ring
+theorem cross2_anti (u v : Rat × Rat) : cross2 v u = -cross2 u v := by unfold cross2; ring
+
+/-- "same half-plane, counter-clockwise (times ρ)" relation between direction vectors -/
+def Rturn (ρ : Rat) (u v : Rat × Rat) : Prop :=
+  vsign2 u = vsign2 v ∧ vsign2 u ≠ 0 ∧ 0 < ρ * cross2 u v
+
+/-- within one of the two half-planes of the vertex-sign rule the angular order is transitive -/
+theorem Rturn_trans {ρ : Rat} {u v w : Rat × Rat} (h1 : Rturn ρ u v) (h2 : Rturn ρ v w) : Rturn ρ u w := by
+  obtain ⟨e1, n1, c1⟩ := h1
+  obtain ⟨e2, _, c2⟩ := h2
+  refine ⟨e1.trans e2, n1, ?_⟩
+  have key : v.1 * (ρ * cross2 u w) = u.1 * (ρ * cross2 v w) + w.1 * (ρ * cross2 u v) := by
+    unfold cross2; ring
+  unfold cross2 at c1 c2 key ⊢
+  rcases vsign2_cases u with ⟨su, hu⟩ | ⟨su, hu⟩ | ⟨su, _⟩
+  · -- all three in H+
+    have sv : vsign2 v = 1 := by rw [← e1, su]
+    have sw : vsign2 w = 1 := by rw [← e2, sv]
+    rcases vsign2_cases v with ⟨_, hv⟩ | ⟨h, _⟩ | ⟨h, _⟩
+    rcases vsign2_cases w with ⟨_, hw⟩ | ⟨h, _⟩ | ⟨h, _⟩
+    · rcases hv with hv | ⟨hv0, hv2⟩
+      · -- v.1 > 0
+        have hu1 : 0 ≤ u.1 := by rcases hu with h | ⟨h, _⟩ <;> linarith
+        have hw1 : 0 ≤ w.1 := by rcases hw with h | ⟨h, _⟩ <;> linarith
+        by_contra hc
+        have hle : ρ * (u.1 * w.2 - u.2 * w.1) ≤ 0 := not_lt.mp hc
+        have hr : 0 ≤ u.1 * (ρ * (v.1 * w.2 - v.2 * w.1)) + w.1 * (ρ * (u.1 * v.2 - u.2 * v.1)) :=
+          add_nonneg (mul_nonneg hu1 c2.le) (mul_nonneg hw1 c1.le)
+        have hl : v.1 * (ρ * (u.1 * w.2 - u.2 * w.1)) ≤ 0 := mul_nonpos_of_nonneg_of_nonpos hv.le hle
+        have hz : u.1 * (ρ * (v.1 * w.2 - v.2 * w.1)) + w.1 * (ρ * (u.1 * v.2 - u.2 * v.1)) = 0 := by linarith
+        have hu0 : u.1 = 0 := by
+          by_contra h
+          have : 0 < u.1 := lt_of_le_of_ne hu1 (Ne.symm h)
+          nlinarith [mul_pos this c2, mul_nonneg hw1 c1.le]
+        have hw0 : w.1 = 0 := by
+          by_contra h
+          have : 0 < w.1 := lt_of_le_of_ne hw1 (Ne.symm h)
+          nlinarith [mul_pos this c1, mul_nonneg hu1 c2.le]
+        have hu2 : 0 < u.2 := by rcases hu with h | ⟨_, h⟩ <;> linarith
+        have hw2 : 0 < w.2 := by rcases hw with h | ⟨_, h⟩ <;> linarith
+        rw [hu0] at c1; rw [hw0] at c2
+        -- c1 : 0 < ρ (-(u.2 v.1)),  c2 : 0 < ρ (v.1 w.2)
+        have p1 : 0 < (ρ * (0 * v.2 - u.2 * v.1)) * w.2 := mul_pos c1 hw2
+        have p2 : 0 < (ρ * (v.1 * w.2 - v.2 * 0)) * u.2 := mul_pos c2 hu2
+        nlinarith
+      · -- v on the positive y-axis: impossible
+        rw [hv0] at c1 c2
+        have hu1 : 0 ≤ u.1 := by rcases hu with h | ⟨h, _⟩ <;> linarith
+        have hw1 : 0 ≤ w.1 := by rcases hw with h | ⟨h, _⟩ <;> linarith
+        have p1 : 0 ≤ (ρ * (u.1 * v.2 - u.2 * 0)) * w.1 := mul_nonneg c1.le hw1
+        have p2 : 0 ≤ (ρ * (0 * w.2 - v.2 * w.1)) * u.1 := mul_nonneg c2.le hu1
+        have hw0 : w.1 = 0 ∨ u.1 = 0 := by
+          by_contra h
+          have h := not_or.mp h
+          have a : 0 < w.1 := lt_of_le_of_ne hw1 (Ne.symm h.1)
+          have b : 0 < u.1 := lt_of_le_of_ne hu1 (Ne.symm h.2)
+          nlinarith [mul_pos (mul_pos c1 a) b, mul_pos (mul_pos c2 b) a]
+        rcases hw0 with h | h
+        · rw [h] at c2; simp at c2
+        · rw [h] at c1; simp at c1
+    · rw [sw] at h; exact absurd h (by decide)
+    · rw [sw] at h; exact absurd h (by decide)
+    · rw [sv] at h; exact absurd h (by decide)
+    · rw [sv] at h; exact absurd h (by decide)
+  · -- all three in H-
+    have sv : vsign2 v = -1 := by rw [← e1, su]
+    have sw : vsign2 w = -1 := by rw [← e2, sv]
+    rcases vsign2_cases v with ⟨h, _⟩ | ⟨_, hv⟩ | ⟨h, _⟩
+    · rw [sv] at h; exact absurd h (by decide)
+    rcases vsign2_cases w with ⟨h, _⟩ | ⟨_, hw⟩ | ⟨h, _⟩
+    · rw [sw] at h; exact absurd h (by decide)
+    · rcases hv with hv | ⟨hv0, hv2⟩
+      · have hu1 : u.1 ≤ 0 := by rcases hu with h | ⟨h, _⟩ <;> linarith
+        have hw1 : w.1 ≤ 0 := by rcases hw with h | ⟨h, _⟩ <;> linarith
+        by_contra hc
+        have hle : ρ * (u.1 * w.2 - u.2 * w.1) ≤ 0 := not_lt.mp hc
+        have hr : u.1 * (ρ * (v.1 * w.2 - v.2 * w.1)) + w.1 * (ρ * (u.1 * v.2 - u.2 * v.1)) ≤ 0 :=
+          add_nonpos (mul_nonpos_of_nonpos_of_nonneg hu1 c2.le) (mul_nonpos_of_nonpos_of_nonneg hw1 c1.le)
+        have hl : 0 ≤ v.1 * (ρ * (u.1 * w.2 - u.2 * w.1)) := mul_nonneg_of_nonpos_of_nonpos hv.le hle
+        have hu0 : u.1 = 0 := by
+          by_contra h
+          have : u.1 < 0 := lt_of_le_of_ne hu1 h
+          nlinarith [mul_pos (neg_pos.mpr this) c2, mul_nonpos_of_nonpos_of_nonneg hw1 c1.le]
+        have hw0 : w.1 = 0 := by
+          by_contra h
+          have : w.1 < 0 := lt_of_le_of_ne hw1 h
+          nlinarith [mul_pos (neg_pos.mpr this) c1, mul_nonpos_of_nonpos_of_nonneg hu1 c2.le]
+        have hu2 : u.2 < 0 := by rcases hu with h | ⟨_, h⟩ <;> linarith
+        have hw2 : w.2 < 0 := by rcases hw with h | ⟨_, h⟩ <;> linarith
+        rw [hu0] at c1; rw [hw0] at c2
+        have p1 : 0 < (ρ * (0 * v.2 - u.2 * v.1)) * (-w.2) := mul_pos c1 (by linarith)
+        have p2 : 0 < (ρ * (v.1 * w.2 - v.2 * 0)) * (-u.2) := mul_pos c2 (by linarith)
+        nlinarith
+      · rw [hv0] at c1 c2
+        have hu1 : u.1 ≤ 0 := by rcases hu with h | ⟨h, _⟩ <;> linarith
+        have hw1 : w.1 ≤ 0 := by rcases hw with h | ⟨h, _⟩ <;> linarith
+        have hw0 : w.1 = 0 ∨ u.1 = 0 := by
+          by_contra h
+          have h := not_or.mp h
+          have a : 0 < -w.1 := by have := lt_of_le_of_ne hw1 h.1; linarith
+          have b : 0 < -u.1 := by have := lt_of_le_of_ne hu1 h.2; linarith
+          nlinarith [mul_pos (mul_pos c1 a) b, mul_pos (mul_pos c2 b) a]
+        rcases hw0 with h | h
+        · rw [h] at c2; simp at c2
+        · rw [h] at c1; simp at c1
+    · rw [sw] at h; exact absurd h (by decide)
+    · rw [sv] at h; exact absurd h (by decide)
+  · exact absurd su n1
+
+theorem Rturn_irrefl {ρ : Rat} {u : Rat × Rat} (h : Rturn ρ u u) : False := by
+  have := h.2.2; rw [cross2_self] at this; simp at this
+
+theorem Rturn_asymm {ρ : Rat} {u v : Rat × Rat} (h1 : Rturn ρ u v) (h2 : Rturn ρ v u) : False :=
+  Rturn_irrefl (Rturn_trans h1 h2)
+
+/-- a closed chain cannot turn the same way at every step inside one half-plane -/
+theorem no_closed_chain (ρ : Rat) (first a : Rat × Rat) (l : List (Rat × Rat))
+    (hstart : first = a ∨ Rturn ρ first a)
+    (hall : ∀ e ∈ edgesFrom first (a :: l), Rturn ρ e.1 e.2) : False := by
+  induction l generalizing a with
+  | nil =>
+    have h := hall (a, first) (by simp [edgesFrom])
+    rcases hstart with rfl | h'
+    · exact Rturn_irrefl h
+    · exact Rturn_asymm h' h
+  | cons b l ih =>
+    have hab := hall (a, b) (by simp [edgesFrom])
+    apply ih b
+    · right
+      rcases hstart with rfl | h'
+      · exact hab
+      · exact Rturn_trans h' hab
+    · intro e he
+      exact hall e (by simp only [edgesFrom, List.mem_cons]; exact Or.inr he)
+
+/-! cyclic edge lists -/
+
+theorem edgesFrom_map {α β : Type} (f : α → β) (first : α) (l : List α) :
+    edgesFrom (f first) (l.map f) = (edgesFrom first l).map (fun e => (f e.1, f e.2)) := by
+  induction l with
+  | nil => rfl
+  | cons a l ih =>
+    cases l with
+    | nil => rfl
+    | cons b l => simp only [List.map_cons, edgesFrom] at ih ⊢; rw [ih]
+
+theorem edges_map {α β : Type} (f : α → β) (l : List α) :
+    edges (l.map f) = (edges l).map (fun e => (f e.1, f e.2)) := by
+  cases l with
+  | nil => rfl
+  | cons a l => exact edgesFrom_map f a (a :: l)
+
+theorem sum_telescope {α : Type} (φ : α → Int) (first a : α) (l : List α) :
+    sumInt ((edgesFrom first (a :: l)).map (fun e => φ e.2 - φ e.1)) = φ first - φ a := by
+  induction l generalizing a with
+  | nil => simp [edgesFrom, sumInt]
+  | cons b l ih =>
+    simp only [edgesFrom, List.map_cons, sumInt]
+    rw [ih b]; ring
+
+theorem sum_telescope_edges {α : Type} (φ : α → Int) (l : List α) :
+    sumInt ((edges l).map (fun e => φ e.2 - φ e.1)) = 0 := by
+  cases l with
+  | nil => rfl
+  | cons a l => unfold edges; rw [sum_telescope]; ring
+
+theorem sumInt_ge_one (l : List Int) (h0 : ∀ x ∈ l, 0 ≤ x) (h1 : ∃ x ∈ l, 1 ≤ x) : 1 ≤ sumInt l := by
+  induction l with
+  | nil => obtain ⟨x, hx, _⟩ := h1; simp at hx
+  | cons a l ih =>
+    have hnn : 0 ≤ sumInt l := by
+      clear ih h1
+      induction l with
+      | nil => simp [sumInt]
+      | cons b l ih2 =>
+        have hb := h0 b (by simp)
+        have := ih2 (fun x hx => h0 x (by
+          rcases List.mem_cons.mp hx with rfl | hx
+          · simp
+          · simp [hx]))
+        simp only [sumInt]; omega
+    have ha := h0 a (by simp)
+    obtain ⟨x, hx, hx1⟩ := h1
+    simp only [sumInt]
+    rcases List.mem_cons.mp hx with rfl | hx
+    · omega
+    · have := ih (fun y hy => h0 y (List.mem_cons_of_mem _ hy)) ⟨x, hx, hx1⟩
+      omega
+
+theorem sumInt_map_mul {α : Type} (k : Int) (f : α → Int) (l : List α) :
+    sumInt (l.map (fun e => k * f e)) = k * sumInt (l.map f) := by
+  induction l with
+  | nil => simp [sumInt]
+  | cons a l ih => simp only [List.map_cons, sumInt, ih]; ring
+
+theorem sgn_eq_zero {x : Rat} (h : sgn x = 0) : x = 0 := by
+  rcases lt_trichotomy x 0 with h1 | h1 | h1
+  · rw [sgn_neg h1] at h; exact absurd h (by decide)
+  · exact h1
+  · rw [sgn_pos h1] at h; exact absurd h (by decide)
+
+theorem sgn_of_mul_pos {b c : Rat} (h : 0 < b * c) : sgn c = sgn b ∧ sgn b * sgn b = 1 := by
+  rcases lt_trichotomy b 0 with hb | hb | hb
+  · have : c < 0 := by
+      by_contra hc
+      have := mul_nonpos_of_nonpos_of_nonneg hb.le (not_lt.mp hc)
+      linarith
+    rw [sgn_neg this, sgn_neg hb]; exact ⟨rfl, by decide⟩
+  · rw [hb] at h; simp at h
+  · have : 0 < c := by
+      by_contra hc
+      have := mul_nonpos_of_nonneg_of_nonpos hb.le (not_lt.mp hc)
+      linarith
+    rw [sgn_pos this, sgn_pos hb]; exact ⟨rfl, by decide⟩
+
+/-- completeness: if the point is strictly on the same side of all edges (all `cross2` have the sign of `ρ`),
+    the winding test accepts it -/
+theorem winding_complete (vs : List (Rat × Rat)) (p : Rat × Rat) (ρ : Rat) (hne : vs ≠ [])
+    (hpos : ∀ e ∈ edges vs, 0 < ρ * cross2 (rel p e.1) (rel p e.2)) :
+    windingInside (edges vs) p = true := by
+  have hsg : ∀ e ∈ edges vs, edgeSgn p e = sgn ρ ∧ sgn ρ * sgn ρ = 1 := fun e he => by
+    have := sgn_of_mul_pos (hpos e he); exact this
+  have hnz1 : ∀ e ∈ edges vs, vsign2 (rel p e.1) ≠ 0 := by
+    intro e he h0
+    rcases vsign2_cases (rel p e.1) with ⟨h, _⟩ | ⟨h, _⟩ | ⟨_, h1, h2⟩
+    · rw [h] at h0; exact absurd h0 (by decide)
+    · rw [h] at h0; exact absurd h0 (by decide)
+    · have := hpos e he
+      unfold cross2 at this
+      rw [h1, h2] at this
+      simp at this
+  have hnz2 : ∀ e ∈ edges vs, ¬ ((rel p e.2).1 = 0 ∧ (rel p e.2).2 = 0) := by
+    intro e he h0
+    have := hpos e he
+    unfold cross2 at this
+    rw [h0.1, h0.2] at this
+    simp at this
+  unfold windingInside
+  have a1 : ¬ ((edges vs).any (fun e => (decide ((rel p e.1).1 = 0) && decide ((rel p e.1).2 = 0)) ||
+      (decide ((rel p e.2).1 = 0) && decide ((rel p e.2).2 = 0))) = true) := by
+    intro h
+    obtain ⟨e, he, h⟩ := List.any_eq_true.mp h
+    simp only [Bool.or_eq_true, Bool.and_eq_true, decide_eq_true_eq] at h
+    rcases h with h | h
+    · apply hnz1 e he
+      unfold vsign2 vsign
+      rw [h.1, h.2]; simp [sgn_zero]
+    · exact hnz2 e he h
+  have a2 : ¬ ((edges vs).any (fun e => active p e && (edgeSgn p e == 0)) = true) := by
+    intro h
+    obtain ⟨e, he, h⟩ := List.any_eq_true.mp h
+    simp only [Bool.and_eq_true, beq_iff_eq] at h
+    have := hsg e he
+    rw [h.2] at this
+    rw [← this.1] at this
+    simp at this
+  rw [if_neg a1, if_neg a2]
+  -- some edge is active
+  have hact : ∃ e ∈ edges vs, active p e = true := by
+    by_contra hno
+    have hin : ∀ e ∈ edges vs, vsign2 (rel p e.1) = vsign2 (rel p e.2) := by
+      intro e he
+      by_contra hd
+      apply hno
+      refine ⟨e, he, ?_⟩
+      unfold active
+      simp only [bne_iff_ne, ne_eq]
+      intro h0
+      apply hd
+      omega
+    cases vs with
+    | nil => exact hne rfl
+    | cons a l =>
+      apply no_closed_chain ρ (rel p a) (rel p a) (l.map (rel p)) (Or.inl rfl)
+      intro e he
+      have : edgesFrom (rel p a) (rel p a :: l.map (rel p)) = (edges (a :: l)).map (fun e => (rel p e.1, rel p e.2)) := by
+        have := edges_map (rel p) (a :: l)
+        simpa [edges] using this
+      rw [this] at he
+      obtain ⟨e', he', rfl⟩ := List.mem_map.mp he
+      exact ⟨hin e' he', hnz1 e' he', hpos e' he'⟩
+  -- the sum of the contributions is sgn ρ times a positive count
+  obtain ⟨e0, he0, hact0⟩ := hact
+  have hs2 : sgn ρ * sgn ρ = 1 := (hsg e0 he0).2
+  have hsum : 1 ≤ sumInt ((edges vs).map (fun e => sgn ρ * contrib p e)) := by
+    apply sumInt_ge_one
+    · intro x hx
+      obtain ⟨e, he, rfl⟩ := List.mem_map.mp hx
+      unfold contrib
+      split_ifs
+      · rw [(hsg e he).1, hs2]; decide
+      · simp
+    · refine ⟨sgn ρ * contrib p e0, List.mem_map.mpr ⟨e0, he0, rfl⟩, ?_⟩
+      unfold contrib
+      rw [if_pos hact0, (hsg e0 he0).1, hs2]
+  rw [sumInt_map_mul] at hsum
+  simp only [bne_iff_ne, ne_eq]
+  intro h0
+  rw [h0] at hsum
+  simp at hsum
+
+/-- two direction vectors of an open half-plane `α x + β y > 0`, one in each half-plane of the vertex-sign rule -/
+theorem half_plane_cross {α β : Rat} {u v : Rat × Rat}
+    (hu : 0 < u.1 ∨ (u.1 = 0 ∧ 0 < u.2)) (hv : v.1 < 0 ∨ (v.1 = 0 ∧ v.2 < 0))
+    (Lu : 0 < α * u.1 + β * u.2) (Lv : 0 < α * v.1 + β * v.2) : 0 < β * cross2 u v := by
+  unfold cross2
+  rcases hu with hu | ⟨hu1, hu2⟩
+  · rcases hv with hv | ⟨hv1, hv2⟩
+    · nlinarith [mul_pos hu Lv, mul_pos (neg_pos.mpr hv) Lu]
+    · rw [hv1] at Lv ⊢
+      nlinarith [mul_pos hu Lv]
+  · rcases hv with hv | ⟨hv1, hv2⟩
+    · rw [hu1] at Lu ⊢
+      nlinarith [mul_pos (neg_pos.mpr hv) Lu]
+    · rw [hu1] at Lu; rw [hv1] at Lv
+      nlinarith [mul_pos Lu (neg_pos.mpr hv2)]
+
+/-- soundness: if all vertices (relative to the point) lie in an open half-plane, the winding sum vanishes -/
+theorem winding_sum_zero (vs : List (Rat × Rat)) (p : Rat × Rat) (α β : Rat)
+    (hG : ∀ e ∈ edges vs, 0 < α * (rel p e.1).1 + β * (rel p e.1).2 ∧ 0 < α * (rel p e.2).1 + β * (rel p e.2).2) :
+    sumInt ((edges vs).map (contrib p)) = 0 := by
+  have per : ∀ e ∈ edges vs, 2 * contrib p e = -(sgn β) * (vsign2 (rel p e.2) - vsign2 (rel p e.1)) := by
+    intro e he
+    obtain ⟨Lu, Lv⟩ := hG e he
+    unfold contrib active
+    rcases vsign2_cases (rel p e.1) with ⟨su, hu⟩ | ⟨su, hu⟩ | ⟨_, h1, h2⟩
+    · rcases vsign2_cases (rel p e.2) with ⟨sv, hv⟩ | ⟨sv, hv⟩ | ⟨_, h1, h2⟩
+      · rw [su, sv]; simp
+      · rw [su, sv]
+        have hc := sgn_of_mul_pos (half_plane_cross hu hv Lu Lv)
+        unfold edgeSgn
+        rw [hc.1]; simp; ring
+      · rw [h1, h2] at Lv; simp at Lv
+    · rcases vsign2_cases (rel p e.2) with ⟨sv, hv⟩ | ⟨sv, hv⟩ | ⟨_, h1, h2⟩
+      · rw [su, sv]
+        have hpos := half_plane_cross hv hu Lv Lu
+        rw [cross2_anti] at hpos
+        have hc := sgn_of_mul_pos (b := -β) (c := cross2 (rel p e.1) (rel p e.2)) (by linarith)
+        unfold edgeSgn
+        rw [hc.1]
+        have : sgn (-β) = -sgn β := by
+          rcases lt_trichotomy β 0 with hb | hb | hb
+          · rw [sgn_neg hb, sgn_pos (by linarith)]; rfl
+          · rw [hb]; simp [sgn_zero]
+          · rw [sgn_pos hb, sgn_neg (by linarith)]
+        rw [this]; simp; ring
+      · rw [su, sv]; simp
+      · rw [h1, h2] at Lv; simp at Lv
+    · rw [h1, h2] at Lu; simp at Lu
+  have gen : ∀ es : List ((Rat × Rat) × (Rat × Rat)),
+      (∀ e ∈ es, 2 * contrib p e = -(sgn β) * (vsign2 (rel p e.2) - vsign2 (rel p e.1))) →
+      2 * sumInt (es.map (contrib p)) = -(sgn β) * sumInt (es.map (fun e => vsign2 (rel p e.2) - vsign2 (rel p e.1))) := by
+    intro es
+    induction es with
+    | nil => intro _; simp [sumInt]
+    | cons e es ih =>
+      intro h
+      have h1 := h e (by simp)
+      have h2 := ih (fun x hx => h x (List.mem_cons_of_mem _ hx))
+      simp only [List.map_cons, sumInt]
+      rw [mul_add, h1, h2]; ring
+  have := gen (edges vs) per
+  rw [sum_telescope_edges (fun v => vsign2 (rel p v)) vs] at this
+  omega
+
+theorem windingInside_sum_ne {es : List ((Rat × Rat) × (Rat × Rat))} {p : Rat × Rat}
+    (h : windingInside es p = true) : sumInt (es.map (contrib p)) ≠ 0 := by
+  unfold windingInside at h
+  split_ifs at h
+  simpa using h
+
+/-! ### from the plane to the two kept coordinates -/
+
+theorem absR_nonneg (x : Rat) : 0 ≤ absR x := by unfold absR; split_ifs <;> linarith
+theorem absR_eq_zero {x : Rat} (h : absR x ≤ 0) : x = 0 := by
+  unfold absR at h; split_ifs at h <;> linarith
+
+/-- for points of a plane with normal `n`, the 2-d cross product of the kept coordinates is a fixed non-zero
+    multiple of the 3-d orientation `side3` -/
+theorem to2d_bridge (n : Vec) (hn : n.length = 3) (hnn : nsq n ≠ 0) :
+    ∃ r : Rat, r ≠ 0 ∧ ∀ q a b : Vec, q.length = 3 → a.length = 3 → b.length = 3 →
+      dot (vsub a q) n = 0 → dot (vsub b q) n = 0 →
+      cross2 (rel (to2d n q) (to2d n a)) (rel (to2d n q) (to2d n b)) * nsq n = r * side3 n q a b := by
+  obtain ⟨n1, n2, n3, rfl⟩ := len3 n hn
+  have hN : n1 * n1 + (n2 * n2 + n3 * n3) ≠ 0 := by simpa [nsq] using hnn
+  by_cases c1 : absR n2 ≤ absR n1 ∧ absR n3 ≤ absR n1
+  · refine ⟨n1, ?_, ?_⟩
+    · intro h0
+      have a2 : n2 = 0 := absR_eq_zero (by rw [h0] at c1; simpa [absR] using c1.1)
+      have a3 : n3 = 0 := absR_eq_zero (by rw [h0] at c1; simpa [absR] using c1.2)
+      apply hN; rw [h0, a2, a3]; ring
+    · intro q a b hq ha hb pa pb
+      obtain ⟨q1, q2, q3, rfl⟩ := len3 q hq
+      obtain ⟨a1, a2, a3, rfl⟩ := len3 a ha
+      obtain ⟨b1, b2, b3, rfl⟩ := len3 b hb
+      simp at pa pb
+      simp only [to2d, if_pos c1, rel, cross2, side3, cross3, nsq, vsub_cons, vsub_nil_left, dot_cons, dot_nil_left]
+      linear_combination (n2 * (b3 - q3) - n3 * (b2 - q2)) * pa - (n2 * (a3 - q3) - n3 * (a2 - q2)) * pb
+  · by_cases c2 : absR n3 ≤ absR n2
+    · refine ⟨-n2, ?_, ?_⟩
+      · intro h0
+        have h2 : n2 = 0 := by linarith
+        have a3 : n3 = 0 := absR_eq_zero (by rw [h2] at c2; simpa [absR] using c2)
+        apply c1
+        rw [h2, a3]
+        exact ⟨by simp [absR]; exact absR_nonneg n1, by simp [absR]; exact absR_nonneg n1⟩
+      · intro q a b hq ha hb pa pb
+        obtain ⟨q1, q2, q3, rfl⟩ := len3 q hq
+        obtain ⟨a1, a2, a3, rfl⟩ := len3 a ha
+        obtain ⟨b1, b2, b3, rfl⟩ := len3 b hb
+        simp at pa pb
+        simp only [to2d, if_neg c1, if_pos c2, rel, cross2, side3, cross3, nsq, vsub_cons, vsub_nil_left, dot_cons, dot_nil_left]
+        linear_combination (-(n3 * (b1 - q1) - n1 * (b3 - q3))) * pa + (n3 * (a1 - q1) - n1 * (a3 - q3)) * pb
+    · refine ⟨n3, ?_, ?_⟩
+      · intro h0
+        apply c2
+        rw [h0]; simp [absR]; exact absR_nonneg n2
+      · intro q a b hq ha hb pa pb
+        obtain ⟨q1, q2, q3, rfl⟩ := len3 q hq
+        obtain ⟨a1, a2, a3, rfl⟩ := len3 a ha
+        obtain ⟨b1, b2, b3, rfl⟩ := len3 b hb
+        simp at pa pb
+        simp only [to2d, if_neg c1, if_neg c2, rel, cross2, side3, cross3, nsq, vsub_cons, vsub_nil_left, dot_cons, dot_nil_left]
+        linear_combination (n1 * (b2 - q2) - n2 * (b1 - q1)) * pa - (n1 * (a2 - q2) - n2 * (a1 - q1)) * pb
+
+/-- two points of the plane differ by a vector orthogonal to the normal -/
+theorem rel_plane (c n a q : Vec) (ha : a.length = q.length) (hc : c.length = q.length)
+    (pa : dot (vsub a c) n = 0) (pq : dot (vsub q c) n = 0) : dot (vsub a q) n = 0 := by
+  rw [dot_vsub_left _ _ _ ha]
+  rw [dot_vsub_left _ _ _ (by rw [ha, hc])] at pa
+  rw [dot_vsub_left _ _ _ hc.symm] at pq
+  linarith
+
+theorem convex_nonempty (poly : List Vec) (C : ConvexPoly poly) : poly ≠ [] := by
+  intro h
+  apply C.nn
+  rw [h]
+  decide +kernel
+
+theorem inPoly_eq (poly : List Vec) (n x : Vec) :
+    inPoly poly n x = windingInside (edges (poly.map (to2d n))) (to2d n x) := by
+  unfold inPoly; rw [edges_map]
+
+/-- completeness of the membership test for convex polygons: strictly inside ⇒ accepted -/
+theorem inPoly_complete (poly : List Vec) (C : ConvexPoly poly) (q : Vec) (hq : q.length = 3)
+    (pq : dot (vsub q (centroid poly)) (normal poly) = 0)
+    (hin : ∀ g ∈ edges poly, 0 < side3 (normal poly) g.1 g.2 q) :
+    inPoly poly (normal poly) q = true := by
+  obtain ⟨r, hr, hbr⟩ := to2d_bridge (normal poly) C.nlen C.nn
+  have hnn : 0 < nsq (normal poly) := lt_of_le_of_ne (nsq_nonneg _) (Ne.symm C.nn)
+  rw [inPoly_eq]
+  apply winding_complete _ _ r
+  · intro h
+    exact convex_nonempty poly C (List.map_eq_nil_iff.mp h)
+  · intro e he
+    rw [edges_map] at he
+    obtain ⟨g, hg, rfl⟩ := List.mem_map.mp he
+    obtain ⟨la, lb⟩ := C.len3 g hg
+    have pa := rel_plane _ _ g.1 q (by rw [la, hq]) (by rw [C.clen, hq]) (C.planar g hg).1 pq
+    have pb := rel_plane _ _ g.2 q (by rw [lb, hq]) (by rw [C.clen, hq]) (C.planar g hg).2 pq
+    have hb := hbr q g.1 g.2 hq la lb pa pb
+    have hs : 0 < side3 (normal poly) q g.1 g.2 := by
+      rw [← side3_rot _ _ _ _ C.nlen la lb hq]; exact hin g hg
+    simp only []
+    have h1 : (r * cross2 (rel (to2d (normal poly) q) (to2d (normal poly) g.1))
+        (rel (to2d (normal poly) q) (to2d (normal poly) g.2))) * nsq (normal poly)
+        = r * r * side3 (normal poly) q g.1 g.2 := by rw [mul_assoc, hb]; ring
+    have h2 : 0 < r * r * side3 (normal poly) q g.1 g.2 :=
+      mul_pos (mul_self_pos.mpr hr) hs
+    by_contra hc
+    have := mul_nonpos_of_nonpos_of_nonneg (not_lt.mp hc) hnn.le
+    linarith
+
+/-- soundness of the membership test for convex polygons: accepted ⇒ in the closed region -/
+theorem inPoly_sound (poly : List Vec) (C : ConvexPoly poly) (q : Vec) (hq : q.length = 3)
+    (pq : dot (vsub q (centroid poly)) (normal poly) = 0)
+    (hacc : inPoly poly (normal poly) q = true) :
+    ∀ g ∈ edges poly, 0 ≤ side3 (normal poly) g.1 g.2 q := by
+  intro k hk
+  by_contra hneg
+  have hneg : side3 (normal poly) k.1 k.2 q < 0 := not_le.mp hneg
+  obtain ⟨r, hr, hbr⟩ := to2d_bridge (normal poly) C.nlen C.nn
+  have hnn : 0 < nsq (normal poly) := lt_of_le_of_ne (nsq_nonneg _) (Ne.symm C.nn)
+  obtain ⟨lka, lkb⟩ := C.len3 k hk
+  rw [inPoly_eq] at hacc
+  apply windingInside_sum_ne hacc
+  -- direction of the separating edge in the kept coordinates
+  have pkb := rel_plane _ _ k.2 k.1 (by rw [lkb, lka]) (by rw [C.clen, lka]) (C.planar k hk).2 (C.planar k hk).1
+  have pkq := rel_plane _ _ q k.1 (by rw [hq, lka]) (by rw [C.clen, lka]) pq (C.planar k hk).1
+  have hq2 := hbr k.1 k.2 q lka lkb hq pkb pkq
+  -- every vertex is strictly on the positive side of the parallel line through q
+  have vert : ∀ v : Vec, v.length = 3 → dot (vsub v (centroid poly)) (normal poly) = 0 →
+      0 ≤ side3 (normal poly) k.1 k.2 v →
+      0 < (-(r * (rel (to2d (normal poly) k.1) (to2d (normal poly) k.2)).2)) * (rel (to2d (normal poly) q) (to2d (normal poly) v)).1
+        + (r * (rel (to2d (normal poly) k.1) (to2d (normal poly) k.2)).1) * (rel (to2d (normal poly) q) (to2d (normal poly) v)).2 := by
+    intro v lv pv sv
+    have pkv := rel_plane _ _ v k.1 (by rw [lv, lka]) (by rw [C.clen, lka]) pv (C.planar k hk).1
+    have hv2 := hbr k.1 k.2 v lka lkb lv pkb pkv
+    have key : ((-(r * (rel (to2d (normal poly) k.1) (to2d (normal poly) k.2)).2)) * (rel (to2d (normal poly) q) (to2d (normal poly) v)).1
+        + (r * (rel (to2d (normal poly) k.1) (to2d (normal poly) k.2)).1) * (rel (to2d (normal poly) q) (to2d (normal poly) v)).2) * nsq (normal poly)
+        = r * r * (side3 (normal poly) k.1 k.2 v - side3 (normal poly) k.1 k.2 q) := by
+      have e : (-(r * (rel (to2d (normal poly) k.1) (to2d (normal poly) k.2)).2)) * (rel (to2d (normal poly) q) (to2d (normal poly) v)).1
+          + (r * (rel (to2d (normal poly) k.1) (to2d (normal poly) k.2)).1) * (rel (to2d (normal poly) q) (to2d (normal poly) v)).2
+          = r * (cross2 (rel (to2d (normal poly) k.1) (to2d (normal poly) k.2)) (rel (to2d (normal poly) k.1) (to2d (normal poly) v))
+            - cross2 (rel (to2d (normal poly) k.1) (to2d (normal poly) k.2)) (rel (to2d (normal poly) k.1) (to2d (normal poly) q))) := by
+        unfold cross2 rel; ring
+      rw [e, mul_assoc, sub_mul, hv2, hq2]; ring
+    have hpos : 0 < r * r * (side3 (normal poly) k.1 k.2 v - side3 (normal poly) k.1 k.2 q) :=
+      mul_pos (mul_self_pos.mpr hr) (by linarith)
+    by_contra hc
+    have := mul_nonpos_of_nonpos_of_nonneg (not_lt.mp hc) hnn.le
+    linarith
+  apply winding_sum_zero _ _ (-(r * (rel (to2d (normal poly) k.1) (to2d (normal poly) k.2)).2))
+    (r * (rel (to2d (normal poly) k.1) (to2d (normal poly) k.2)).1)
+  intro e he
+  rw [edges_map] at he
+  obtain ⟨g, hg, rfl⟩ := List.mem_map.mp he
+  obtain ⟨_, _, gn, hgn, _, e2, _, _⟩ := C.corners g hg
+  refine ⟨vert g.1 (C.len3 g hg).1 (C.planar g hg).1 (C.vertsIn g hg k hk), ?_⟩
+  have := vert gn.1 (C.len3 gn hgn).1 (C.planar gn hgn).1 (C.vertsIn gn hgn k hk)
+  rw [e2] at this
+  exact this
+
+/-- the vertices and hence all points of the edges belong to the region -/
+theorem edge_in_region (poly : List Vec) (C : ConvexPoly poly) (g : Vec × Vec) (hg : g ∈ edges poly)
+    (t : Rat) (t0 : 0 ≤ t) (t1 : t ≤ 1) : InRegion poly (along g.1 g.2 t) := by
+  obtain ⟨la, lb⟩ := C.len3 g hg
+  obtain ⟨_, _, gn, hgn, _, e2, _, _⟩ := C.corners g hg
+  refine ⟨by rw [length_along _ _ _ (by rw [la, lb]), la], ?_, ?_⟩
+  · exact along_in_plane _ _ _ _ t (by rw [la, lb]) (by rw [C.clen, la]) (C.planar g hg).1 (C.planar g hg).2
+  · intro h hh
+    rw [side3_along _ _ _ _ _ t C.nlen (C.len3 h hh).1 (C.len3 h hh).2 la lb]
+    have s1 := C.vertsIn g hg h hh
+    have s2 := C.vertsIn gn hgn h hh
+    rw [e2] at s2
+    nlinarith [mul_nonneg (sub_nonneg.mpr t1) s1, mul_nonneg t0 s2]
 
 end PorepyVerif.C30
